@@ -514,5 +514,284 @@ Section Multi.
       - cbn [x_entries p_x]. unfold spec_map. rewrite xget_spec_map_absent; [reflexivity|].
         unfold p_numb. rewrite map_map. cbn [fst]. rewrite map_id. exact Hn.
     Qed.
+
+    (* ---------- the invariant after this part ---------- *)
+    Notation chain' := ((xpos, (p_x, p_t)) :: chain).
+
+    Lemma fe_step n : fe chain' n = if p_here p pos n then entry_meaning (p_ehere p pos n) else fe chain n.
+    Proof.
+      unfold fe. cbn [map first_entry fst snd]. change (first_entry (map (fun s : csec => fst (snd s)) chain) n) with (fe chain n).
+      destruct (p_here p pos n) eqn:Eh.
+      - destruct secs_props as [_ [_ [_ Hc]]]. destruct (Hc n Eh) as [f [c [Hin Hr]]].
+        destruct (xget_p_cases n) as [[_ ->]|[Hn _]]; [|exfalso; apply Hn; apply keys_of_In; eauto].
+        rewrite (en_here n Eh). unfold p_here in Eh. destruct (p_ehere p pos n); cbn [is_used] in Eh; try discriminate Eh; reflexivity.
+      - destruct (xget_p_cases n) as [[_ ->]|[_ ->]]; [|reflexivity].
+        unfold p_entry. rewrite Eh. destruct (mem_N n (mp_relist p)).
+        + pose proof (i_known _ _ _ _ _ Hinv n) as K. destruct (lookup_entry known n) as [e|]; [|reflexivity].
+          rewrite <- K. destruct (entry_meaning e); reflexivity.
+        + destruct (n =? 0); reflexivity.
+    Qed.
+
+    Lemma known_step n :
+      lookup_entry (p_known p pos known maxnum) n = if p_here p pos n then Some (p_ehere p pos n) else lookup_entry known n.
+    Proof.
+      unfold p_known. rewrite (lookup_entry_map en known). destruct (p_here p pos n) eqn:Eh.
+      - replace (mem_N n (filter (p_here p pos) (range_N 0 (N.to_nat sz)))) with true; [rewrite (en_here n Eh); reflexivity|].
+        symmetry. apply mem_N_In. apply filter_In. split; [|exact Eh]. apply range_N_In. rewrite N2Nat.id. destruct (here_lt n Eh). lia.
+      - replace (mem_N n (filter (p_here p pos) (range_N 0 (N.to_nat sz)))) with false; [reflexivity|].
+        symmetry. destruct (mem_N n (filter (p_here p pos) (range_N 0 (N.to_nat sz)))) eqn:E; [|reflexivity].
+        apply mem_N_In in E. apply filter_In in E as [_ E]. congruence.
+    Qed.
+
+    Lemma inv_step : Inv rest (P ++ T) chain' (p_known p pos known maxnum) (sz - 1).
+    Proof.
+      assert (HPT : blen P <= blen (P ++ T)) by (unfold blen; rewrite app_length; lia).
+      assert (Hhere : forall n, p_here p pos n = true -> exists off g, p_ehere p pos n = SInUse off g).
+      { intros n Eh. unfold p_here in Eh. destruct (p_ehere p pos n) as [a0 b0|off g|c i] eqn:E; cbn [is_used] in Eh; try discriminate Eh; [eauto|].
+        exfalso. unfold p_ehere in E. destruct (find_off (offs_of pos (p_otops p) ++ []) n) as [[g0 q0]|]; discriminate E. }
+      assert (Hmine : forall tp, In tp tops -> In (top_num tp) (mp_nums p) -> p_here p pos (top_num tp) = true).
+      { intros tp Htp K. apply here_iff. unfold p_hnums. apply in_map_iff. exists tp. split; [reflexivity|]. unfold p_mine. apply in_or_app. left.
+        apply filter_In. split; [exact Htp|]. apply mem_N_In. exact K. }
+      constructor.
+      - (* i_nums *) intros n e H. rewrite fe_step in H. destruct (p_here p pos n) eqn:Eh.
+        + destruct (Hhere n Eh) as [off [g Ee]]. rewrite Ee in H. cbn [entry_meaning] in H. inversion H; subst e.
+          destruct (here_lt n Eh) as [H1 H2]. split; [exact H2|]. split; [lia|eauto].
+        + destruct (i_nums _ _ _ _ _ Hinv n e H) as [H1 [H2 H3]]. split; [exact H1|]. split; [rewrite p_size_eq; lia|exact H3].
+      - (* i_cur *) intros n off g H Hnr. rewrite fe_step in H. destruct (p_here p pos n) eqn:Eh.
+        + destruct (Hhere n Eh) as [off' [g' Ee]]. rewrite Ee in H. cbn [entry_meaning] in H. inversion H; subst off' g'.
+          destruct (ehere_at _ _ _ Ee) as [tp [pre [post [Hin [Ek [EP Eoff]]]]]].
+          destruct (mine_cases p tp Hin) as [[Ht _]|[cur [o [_ [_ Ho]]]]].
+          * exists tp, pre, post. auto.
+          * exfalso. apply Hnr. unfold top_num in Ho. rewrite Ek in Ho. cbn [fst] in Ho. apply (Hold _ Ho).
+        + assert (Hnp : ~ In n (mp_nums p)).
+          { intro K. destruct (i_nums _ _ _ _ _ Hinv n _ H) as [Hn _]. destruct (top_of_num n Hn) as [tp [Htp En]].
+            rewrite <- En in K. pose proof (Hmine tp Htp K) as K2. rewrite En in K2. congruence. }
+          destruct (i_cur _ _ _ _ _ Hinv n off g H) as [tp [pre [post [H1 [H2 [H3 H4]]]]]].
+          { cbn [flat_map]. intro K. apply in_app_or in K as [K|K]; [apply Hnp; exact K|apply Hnr; exact K]. }
+          exists tp, pre, (post ++ T). split; [exact H1|]. split; [exact H2|]. split; [rewrite H3, <- !app_assoc; reflexivity|exact H4].
+      - (* i_all *) intros tp Htp Hnr. rewrite fe_step. destruct (p_here p pos (top_num tp)) eqn:Eh.
+        + destruct (Hhere _ Eh) as [off [g ->]]. discriminate.
+        + apply (i_all _ _ _ _ _ Hinv tp Htp). cbn [flat_map]. intro K. apply in_app_or in K as [K|K]; [|apply Hnr; exact K].
+          pose proof (Hmine tp Htp K). congruence.
+      - (* i_known *) intro n. rewrite known_step, fe_step. destruct (p_here p pos n); [reflexivity|apply (i_known _ _ _ _ _ Hinv)].
+      - (* i_kn *) intros n e H. rewrite known_step in H. destruct (p_here p pos n) eqn:Eh.
+        + inversion H; subst e. destruct (Hhere n Eh) as [off [g Ee]]. exists off, g. split; [exact Ee|].
+          destruct (ehere_at _ _ _ Ee) as [tp [pre [post [Hin [Ek [EP Eoff]]]]]]. split.
+          * rewrite Eoff, EP. unfold blen. rewrite !app_length. lia.
+          * destruct (mine_bounds p tp Hin) as [_ [Hg _]]. rewrite Ek in Hg. exact Hg.
+        + destruct (Hkn n e H) as [off [g [E1 [E2 E3]]]]. exists off, g. split; [exact E1|]. split; [lia|exact E3].
+      - (* i_chain *) intro ext. cbn [chain_ok]. split; [exact xpos_lt|]. split; [apply xparse_p|]. split.
+        + apply p_t_none; [apply Htrail|reflexivity|reflexivity].
+        + split.
+          * rewrite p_t_prev_get.
+            assert (G : forall c, match prev_N c with Some q => Some (OInt (Z.of_N q)) | None => None end = prev_of c)
+              by (intros [|[off [x0 t0]] r]; reflexivity).
+            apply G.
+          * rewrite <- app_assoc. apply (chain_ok_weaken dec can _ chain (blen P)); [unfold p_xpos; lia|apply (i_chain _ _ _ _ _ Hinv)].
+      - (* i_max *) rewrite p_size_eq. pose proof (hnums_le p). pose proof Hmaxn. lia.
+    Qed.
   End Part.
+
+  (* ====================================================================================================
+     Part 3: all parts
+     ==================================================================================================== *)
+  Lemma part_defines_eq p : part_defines st p = mp_nums p.
+  Proof. unfold part_defines, part_containers. rewrite Hos. cbn [filter flat_map]. apply app_nil_r. Qed.
+
+  Lemma defines_eq : forall l, flat_map (part_defines st) l = flat_map mp_nums l.
+  Proof. induction l as [|p l IH]; [reflexivity|]. cbn [flat_map]. rewrite IH, part_defines_eq. reflexivity. Qed.
+
+  Definition part_dom (p : mpart) : Prop := exists t, mp_xref p = XTable t /\ trailer_dom t.
+
+  Lemma parts_inv : forall parts P chain known maxnum r,
+    Forall part_dom parts -> Inv parts P chain known maxnum ->
+    write_parts st a tops parts (blen P) (prev_N chain) known maxnum = Some r ->
+    blen (P ++ r) <= u32_max ->
+    exists chainF knownF maxF, Inv [] (P ++ r) chainF knownF maxF /\
+      (parts <> [] -> exists xs x0 t0 cr lastp front,
+         chainF = (xs, (x0, t0)) :: cr /\ C07Bytes.xincr 0 (x_entries x0) /\ last_part parts = Some lastp /\
+         P ++ r = front ++ startxref_text (with_part st lastp true) xs /\ xs <= blen front /\
+         match parts with p :: _ => p_xpos p (blen P) <= xs | [] => True end /\
+         dict_get (dict_swap_remove t0 K_Prev) K_XRefStm = None /\ dict_has (dict_swap_remove t0 K_Prev) K_Encrypt = false /\
+         x_type x0 = XTTable).
+  Proof.
+    induction parts as [|p rest IH]; intros P chain known maxnum r Hdom Hinv Hw HU.
+    - cbn [write_parts] in Hw. inversion Hw; subst r. rewrite app_nil_r. exists chain, known, maxnum. split; [exact Hinv|]. intro K. contradiction.
+    - inversion Hdom as [|? ? [t [Hxt Htr]] Hdom']; subst.
+      rewrite (write_parts_step p rest _ _ _ _ t Hxt) in Hw.
+      destruct (negb (nodup_N (p_hnums p) && forallb (fun no => mem_N (fst no) (flat_map (part_defines st) rest)) (mp_old p) &&
+                      Nat.eqb (length (p_olds p)) (length (mp_old p)))) eqn:C1; [discriminate Hw|].
+      apply negb_false_iff in C1. apply andb_true_iff in C1 as [C1 _]. apply andb_true_iff in C1 as [C1a C1b].
+      destruct (negb (existsb (p_here p (blen P)) (range_N 0 (N.to_nat (p_size p maxnum))))) eqn:C2; [discriminate Hw|].
+      apply negb_false_iff in C2. apply existsb_exists in C2 as [n0 [_ Hn0]].
+      set (T := p_text p t (p_last rest) (blen P) (prev_N chain) known maxnum) in *.
+      destruct (write_parts st a tops rest (blen P + N.of_nat (length T)) (Some (p_xpos p (blen P))) (p_known p (blen P) known maxnum)
+                            (p_size p maxnum - 1)) as [r'|] eqn:Hr; [|discriminate Hw].
+      inversion Hw; subst r. clear Hw.
+      assert (Hhn : NoDup (p_hnums p)) by (apply nodup_N_spec; exact C1a).
+      assert (Hold : forall no, In no (mp_old p) -> In (fst no) (flat_map mp_nums rest)).
+      { intros no Hno. rewrite forallb_forall in C1b. specialize (C1b no Hno). apply mem_N_In in C1b. rewrite defines_eq in C1b. exact C1b. }
+      assert (Hex : exists n, p_here p (blen P) n = true) by (exists n0; exact Hn0).
+      assert (HU1 : blen (P ++ T) <= u32_max).
+      { unfold blen in *. rewrite !app_length in *. lia. }
+      pose proof (inv_step p t P chain known maxnum rest Hxt Hhn Hinv Hex Hold Htr HU1) as Hinv'. fold T in Hinv'.
+      assert (HTb : p_xpos p (blen P) <= blen (P ++ T)).
+      { unfold T, p_text, p_xpos, blen. rewrite !app_length. lia. }
+      destruct rest as [|p2 rest2].
+      + cbn [write_parts] in Hr. inversion Hr; subst r'. rewrite app_nil_r.
+        eexists _, _, _. split; [exact Hinv'|]. intros _.
+        destruct (PT_front p t P chain known maxnum []) as [F1 F2]; try assumption. fold T in F1.
+        eexists _, _, _, _, p, _. split; [reflexivity|]. split; [apply p_x_sorted|]. split; [reflexivity|].
+        split; [exact F1|]. split; [exact F2|]. split; [lia|]. split; [|split; [|reflexivity]].
+        * rewrite (p_t_removed p t P chain known maxnum [] Hinv Htr HU1 K_XRefStm) by (intro E; discriminate E).
+          apply (p_t_none p t P chain known maxnum []); first [assumption | apply Htrail | reflexivity].
+        * unfold dict_has. rewrite (p_t_removed p t P chain known maxnum [] Hinv Htr HU1 K_Encrypt) by (intro E; discriminate E).
+          rewrite (p_t_none p t P chain known maxnum []); first [assumption | apply Htrail | reflexivity].
+      + assert (Epos : blen P + N.of_nat (length T) = blen (P ++ T)) by (unfold blen; rewrite app_length; lia).
+        rewrite Epos in Hr.
+        destruct (IH (P ++ T) _ _ _ r' Hdom' Hinv' Hr) as [cF [kF [mF [I1 I2]]]].
+        { rewrite <- app_assoc. exact HU. }
+        exists cF, kF, mF. split; [rewrite app_assoc; exact I1|]. intros _.
+        destruct I2 as [xs [x0 [t0 [cr [lastp [front [E1 [E2 [E3 [E4 [E5 [E6 E7]]]]]]]]]]]]; [discriminate|].
+        exists xs, x0, t0, cr, lastp, front. split; [exact E1|]. split; [exact E2|]. split; [exact E3|].
+        split; [rewrite app_assoc; exact E4|]. split; [exact E5|]. split; [|exact E7].
+        unfold p_xpos in E6 at 1. lia.
+  Qed.
+
+  (* ---------- the writer's top level ---------- *)
+  Lemma part_xids_nil : forall parts, Forall part_dom parts -> part_xids parts = [].
+  Proof.
+    induction parts as [|p l IH]; intro H; [reflexivity|]. inversion H as [|? ? [t [Hxt _]] H']; subst.
+    unfold part_xids in *. cbn [flat_map]. rewrite Hxt, (IH H'). reflexivity.
+  Qed.
+
+  Lemma ref_write_multi_shape parts file : Forall part_dom parts -> ref_write_multi st parts a = Some file ->
+    exists r, file = s_junk st ++ RefWriter.header st (a_version a) ++ r /\
+      write_parts st a tops parts (blen (RefWriter.header st (a_version a))) None [] 0 = Some r /\ parts <> [] /\
+      contains (bs "%PDF-") (s_junk st) = false /\ no_eolb (a_version a) = true /\
+      (forall tp, In tp tops -> In (top_num tp) (flat_map mp_nums parts)).
+  Proof.
+    intros Hdom H. unfold ref_write_multi in H. unfold compressed_nums in H. rewrite Hos, (part_xids_nil parts Hdom) in H.
+    cbn [flat_map map containers app] in H. rewrite !app_nil_r in H.
+    destruct (contains (bs "%PDF-") (s_junk st) || contains [x0d] (a_version a) || contains [x0a] (a_version a)) eqn:C1; [discriminate H|].
+    apply orb_false_iff in C1 as [C1 C1c]. apply orb_false_iff in C1 as [C1a C1b].
+    match type of H with (if ?c then _ else _) = _ => destruct c eqn:C2; [discriminate H|] end.
+    rewrite filter_all_true in H by (intro; reflexivity).
+    match type of H with (if ?c then _ else _) = _ => destruct c eqn:C3; [discriminate H|] end.
+    apply negb_false_iff in C3. apply andb_true_iff in C3 as [_ C3].
+    match type of H with match ?w with Some _ => _ | None => _ end = _ => destruct w as [r|] eqn:Hr; [|discriminate H] end.
+    destruct parts as [|p0 parts0]; [discriminate H|]. inversion H; subst file. exists r.
+    split; [reflexivity|]. split; [exact Hr|]. split; [discriminate|]. split; [exact C1a|]. split; [apply version_no_eol; assumption|].
+    intros tp Htp. rewrite forallb_forall in C3. apply mem_N_In. apply (C3 tp Htp).
+  Qed.
+
+  Definition objfM (n g : N) : obj :=
+    match find (fun tp => top_num tp =? n) tops with Some tp => loaded_top tp | None => ONull end.
+
+  Lemma objfM_top tp : In tp tops -> objfM (top_num tp) (snd (fst (fst tp))) = loaded_top tp.
+  Proof.
+    intro H. unfold objfM. destruct (find (fun tp0 => top_num tp0 =? top_num tp) tops) as [tp'|] eqn:Ef.
+    - apply find_some in Ef as [H1 H2]. apply N.eqb_eq in H2. rewrite (tops_unique tp' tp H1 H H2). reflexivity.
+    - exfalso. pose proof (find_none _ _ Ef tp H) as K. cbv beta in K. rewrite N.eqb_refl in K. discriminate K.
+  Qed.
+
+  Lemma ostm_none (x : xmap) : flat_map (ostm_of (fun _ => None)) x = [].
+  Proof. induction x as [|[k e] x IH]; [reflexivity|]. cbn [flat_map]. rewrite IH. unfold ostm_of. cbn [fst snd]. destruct e; reflexivity. Qed.
+
+  Definition window_ok (parts : list mpart) (file : bytes) : Prop :=
+    forall lastp xs, last_part parts = Some lastp -> xs <= blen file ->
+      (9 + length (sx_mid (s_sx_eol1 (with_part st lastp true)) (s_sx_sp1 (with_part st lastp true)) xs
+                          (s_sx_sp2 (with_part st lastp true)) (s_sx_eol2 (with_part st lastp true))) <= 25)%nat.
+
+  Theorem loads_multi_table parts file :
+    Forall part_dom parts -> utf8_decode (a_version a) <> None ->
+    ref_write_multi st parts a = Some file -> blen file <= u32_max ->
+    match parts with p :: _ => 25 < p_xpos p (blen (RefWriter.header st (a_version a))) | [] => True end ->
+    window_ok parts file ->
+    exists d, load_ext dec can file = LOk d XTTable /\ d_version d = a_version a /\
+      (forall tp, In tp tops -> lookup (d_objects d) (fst (fst tp)) = Some (loaded_top tp)) /\
+      (forall id o, lookup (d_objects d) id = Some o -> exists tp, In tp tops /\ fst (fst tp) = id).
+  Proof.
+    intros Hdom Hu Hw Hlen H25 Hsx.
+    destruct (ref_write_multi_shape parts file Hdom Hw) as [r [-> [Hr [Hne [Hj [Hv Hplaced]]]]]].
+    set (hdr := RefWriter.header st (a_version a)) in *.
+    assert (Hinv0 : Inv parts hdr [] [] 0).
+    { constructor.
+      - intros n e H. discriminate H.
+      - intros n off g H. discriminate H.
+      - intros tp Htp Hn. exfalso. apply Hn. apply Hplaced. exact Htp.
+      - intro n. reflexivity.
+      - intros n e H. discriminate H.
+      - intro ext. exact I.
+      - lia. }
+    assert (HU : blen (hdr ++ r) <= u32_max) by (unfold blen in *; rewrite !app_length in *; lia).
+    destruct (parts_inv parts hdr [] [] 0 r Hdom Hinv0 Hr HU) as [cF [kF [mF [IF HF]]]].
+    destruct (HF Hne) as [xs [x0 [t0 [cr [lastp [front [E1 [E2 [E3 [E4 [E5 [E6 [E7 [E8 E9]]]]]]]]]]]]]]. subst cF. clear HF.
+    pose proof (i_chain _ _ _ _ _ IF []) as Hc. rewrite app_nil_r in Hc. cbn [chain_ok] in Hc.
+    destruct Hc as [Hc1 [Hc2 [Hc3 [Hc4 Hc5]]]].
+    set (buf := hdr ++ r) in *.
+    set (xm := fold_left xref_merge (map (fun s : csec => fst (snd s)) cr) x0).
+    assert (Hsorted : C07Bytes.xincr 0 (x_entries xm)) by (apply C07Bytes.fold_merge_sorted; exact E2).
+    assert (Hfe : forall n e, In (n, e) (x_entries xm) -> fe ((xs, (x0, t0)) :: cr) n = Some e).
+    { intros n e Hin. unfold fe. cbn [map fst snd]. rewrite <- xget_merge_chain. apply (C07Bytes.xget_in_sorted _ 0); assumption. }
+    assert (Hmax : xref_max_id xm < u32_max).
+    { unfold xref_max_id. apply N.le_lt_trans with (m := max_num nums); [|lia].
+      apply max_id_le; [lia|]. intros k v Hin. destruct (i_nums _ _ _ _ _ IF k v (Hfe k v Hin)) as [Hk _]. apply max_num_ge. exact Hk. }
+    assert (Hspec : forall n off g, In (n, XNormal off g) (x_entries xm) ->
+                      entry_spec dec can buf (x_entries xm) objfM (fun _ _ => None) (fun _ => None) n off g).
+    { intros n off g Hin. destruct (i_cur _ _ _ _ _ IF n off g (Hfe _ _ Hin)) as [tp [pre [post [H1 [H2 [H3 H4]]]]]]; [intros []|].
+      destruct (tops_id tp H1) as [K1 [K2 [K3 K4]]].
+      assert (Hn : top_num tp = n) by (unfold top_num; rewrite H2; reflexivity).
+      assert (Hg : snd (fst (fst tp)) = g) by (rewrite H2; reflexivity).
+      unfold entry_spec. rewrite H4, H3. split; [unfold blen; rewrite !app_length; lia|]. rewrite from_app.
+      destruct (indirect_x_top (pre ++ top_text tp ++ post) (x_entries xm) tp post K4) as [P1 P2].
+      { fold (top_num tp). pose proof (max_num_ge _ _ K3). lia. }
+      rewrite <- Hn, <- Hg, (objfM_top tp H1). rewrite P1. split; [f_equal; destruct tp as [[[? ?] ?] ?]; reflexivity|].
+      split; [exact P2|]. destruct (loaded_top tp); try reflexivity; exact I. }
+    eexists. split.
+    - rewrite <- E9. apply (load_ext_frame_chain dec can buf (x_entries xm) objfM (fun _ _ => None) (fun _ => None) (s_junk st) buf (a_version a) xs x0 t0 cr).
+      + unfold buf, hdr, RefWriter.header. rewrite <- !app_assoc. apply pdf_offset_junk. exact Hj.
+      + reflexivity.
+      + unfold buf, hdr, RefWriter.header. rewrite <- !app_assoc. apply header_any_eol; assumption.
+      + rewrite E4, startxref_text_block.
+        assert (Hfb : blen front <= blen buf) by (rewrite E4; unfold blen; rewrite app_length; lia).
+        apply get_xref_start_styled.
+        * exact E5.
+        * destruct parts as [|p0 parts0]; [contradiction|]. lia.
+        * unfold u32_max in HU. lia.
+        * apply Hsx; [exact E3|]. unfold buf, blen in *. rewrite !app_length in *. lia.
+      + lia.
+      + exact Hc2.
+      + exact E7.
+      + exact Hc4.
+      + exact Hc5.
+      + reflexivity.
+      + exact E8.
+      + exact Hmax.
+      + exact Hspec.
+    - cbn [d_version d_objects]. split; [reflexivity|].
+      rewrite ostm_none. unfold merge_object_streams. cbn [fold_left]. rewrite zero_pass_id.
+      2:{ intros id' q Hq. rewrite pos_none_fold in Hq by reflexivity. discriminate Hq. }
+      set (M := fold_left (ins objfM) (x_entries xm) []).
+      assert (Hlk : forall id, lookup M id = if hit (xget (x_entries xm)) (x_entries xm) id then Some (objfM (fst id) (snd id)) else None).
+      { intro id. unfold M. rewrite (lookup_fold_ins objfM (xget (x_entries xm)) _ [] id); [reflexivity|].
+        intros n e Hin. apply (C07Bytes.xget_in_sorted _ 0); assumption. }
+      split.
+      + intros tp Htp. rewrite Hlk.
+        assert (Hne' : fe ((xs, (x0, t0)) :: cr) (top_num tp) <> None) by (apply (i_all _ _ _ _ _ IF tp Htp); intros []).
+        destruct (fe ((xs, (x0, t0)) :: cr) (top_num tp)) as [e|] eqn:Ee; [|contradiction].
+        destruct (i_nums _ _ _ _ _ IF _ _ Ee) as [_ [_ [off [g ->]]]].
+        destruct (i_cur _ _ _ _ _ IF _ _ _ Ee) as [tp' [pre [post [H1 [H2 _]]]]]; [intros []|].
+        assert (tp' = tp) by (apply tops_unique; [exact H1|exact Htp|unfold top_num; rewrite H2; reflexivity]). subst tp'.
+        assert (Hx : xget (x_entries xm) (top_num tp) = Some (XNormal off g)) by (unfold xm; rewrite xget_merge_chain; exact Ee).
+        unfold hit. change (fst (fst (fst tp))) with (top_num tp). rewrite (xget_some_key _ _ _ (xget_In _ _ _ Hx)), Hx. cbn [andb].
+        assert (g = snd (fst (fst tp))) by (rewrite H2; reflexivity). subst g. rewrite N.eqb_refl. rewrite objfM_top by exact Htp. reflexivity.
+      + intros id o Hl. rewrite Hlk in Hl. destruct (hit (xget (x_entries xm)) (x_entries xm) id) eqn:Eh; [|discriminate Hl].
+        unfold hit in Eh. apply andb_true_iff in Eh as [_ Eh].
+        destruct (xget (x_entries xm) (fst id)) as [[| |off g|c i]|] eqn:Ex; try discriminate Eh. apply N.eqb_eq in Eh.
+        assert (Ee : fe ((xs, (x0, t0)) :: cr) (fst id) = Some (XNormal off g))
+          by (unfold fe; cbn [map fst snd]; rewrite <- xget_merge_chain; exact Ex).
+        destruct (i_cur _ _ _ _ _ IF _ _ _ Ee) as [tp [pre [post [H1 [H2 _]]]]]; [intros []|].
+        exists tp. split; [exact H1|]. rewrite H2. destruct id; cbn [fst snd] in *. subst. reflexivity.
+  Qed.
 End Multi.
